@@ -43,6 +43,8 @@ def dec(x, cm):
     if t == "s":
         return "s%d" % x["v"]
     if t == "l":       # lists are atoms of the codec; they differ only in the JSON type of a nested scalar
+        if cm is CHARMAPS[1]:   # second family: a dict INSIDE a list that gains / loses keys (directly and one list deeper)
+            return [[{"k": 1}], [{"k": 1, "m": 2}], [[{"k": 1, "m": 2}]], [[{"k": 1}]]][x["v"] % 4]
         return [[{"k": 1}, 2], [{"k": True}, 2], [{"k": 1.0}, 2], [1, True, {"k.": "v"}]][x["v"] % 4]
     if t == "n":
         return None
